@@ -103,6 +103,9 @@ def run_block(case, res):
     op = case["op"]
     w = drivers.SplitWorld(cfg)
     it = None
+    force = getattr(fast, "_verif_rng_force", None)
+    if force:
+        force([0x12345678, 0x23456789])  # fixed-width ids: the enumeration does not depend on the RNG
     if op == "get":
         o = w.send("get", rb.oid_str(BASE + (2, 1, 1)))
     elif op == "get_many":
@@ -115,6 +118,8 @@ def run_block(case, res):
         o = w.send("getbulk", it=it)
     else:
         o = w.send("refresh")
+    if force:
+        force([])
     if o.kind != "ok":
         res["machinery"].append("cannot send %s on %s: %r" % (op, cfg.name, o.brief()))
         return
